@@ -86,6 +86,9 @@ type colSpec struct {
 	jsonTag   bool
 	rawJSON   bool
 	binaryTag bool
+	stringTag bool
+	isValuer  bool
+	implNull  bool
 }
 
 // chooseCol picks a column type able to hold every value of the field's type
